@@ -629,10 +629,12 @@ def _inlinable(P: Program, f: Func, c: ast.Call) -> Optional[Func]:
     package, positional/keyword arguments only, and `return` only as its last statement."""
     fn = c.func
     target: Optional[Func] = None
-    if isinstance(fn, ast.Attribute) and norm.is_name(fn.value, "self") and f.cls:
+    if isinstance(fn, ast.Attribute) and isinstance(fn.value, ast.Name) and f.cls and fn.value.id in ("self", f.cls):
         cl = f.mod.classes.get(f.cls)
         if cl and fn.attr in cl.methods:
             target = cl.methods[fn.attr]
+            if fn.value.id == f.cls and not _is_static(target):
+                target = None
     elif isinstance(fn, ast.Name) and fn.id in f.mod.funcs and "." not in fn.id:
         target = f.mod.funcs[fn.id]
     if target is None or same_fn(target, f):
@@ -644,11 +646,11 @@ def _inlinable(P: Program, f: Func, c: ast.Call) -> Optional[Func]:
     if any(isinstance(x, ast.Starred) for x in c.args) or any(k.arg is None for k in c.keywords):
         return None
     a = target.node.args
-    if a.vararg or a.kwarg or a.kwonlyargs or target.decorators():
+    if a.vararg or a.kwarg or a.kwonlyargs or (target.decorators() and not _is_static(target)):
         return None
     body = target.node.body
     rets = [x for x in own_nodes(target.node) if isinstance(x, ast.Return)]
-    if any(r is not body[-1] for r in rets):
+    if any(r is not body[-1] for r in rets) and not _returns_eliminable(body):
         return None
     # a parameter that the helper binds again (assignment, loop variable, ...) cannot be replaced by the caller's argument expression:
     # inside the helper the name then means something else (and a shadowing slip there must stay visible)
@@ -661,12 +663,82 @@ def _inlinable(P: Program, f: Func, c: ast.Call) -> Optional[Func]:
     return target
 
 
+def _is_static(target: Func) -> bool:
+    ds = target.decorators()
+    return len(ds) == 1 and isinstance(ds[0], ast.Name) and ds[0].id == "staticmethod"
+
+
+def _contains_return(stmts: List[ast.stmt]) -> bool:
+    return any(isinstance(x, ast.Return) for s_ in stmts for x in ast.walk(s_) if not isinstance(x, (ast.FunctionDef, ast.Lambda)))
+
+
+def _always_returns(stmts: List[ast.stmt]) -> bool:
+    if not stmts:
+        return False
+    last = stmts[-1]
+    if isinstance(last, (ast.Return, ast.Raise)):
+        return True
+    if isinstance(last, ast.If):
+        return _always_returns(last.body) and _always_returns(last.orelse)
+    return False
+
+
+def _returns_eliminable(stmts: List[ast.stmt]) -> bool:
+    """every `return` sits at the end of the body or of an if/elif/else branch (guard clauses, case splits) — never inside a loop,
+    try or with, where leaving the function is not the same as falling to the end of a block"""
+    for i, st in enumerate(stmts):
+        if isinstance(st, ast.Return):
+            return i == len(stmts) - 1
+        if isinstance(st, ast.If):
+            if _contains_return([st]):
+                if not (_returns_eliminable(st.body) and _returns_eliminable(st.orelse)):
+                    return False
+                # a branch that returns only on some of its paths would need the rest duplicated: allow only "returns on every path or on none"
+                for br in (st.body, st.orelse):
+                    if _contains_return(br) and not _always_returns(br):
+                        return False
+        elif _contains_return([st]):
+            return False
+    return True
+
+
+def _eliminate_returns(stmts: List[ast.stmt], retvar: Optional[str]) -> List[ast.stmt]:
+    """Rewrite a body whose returns are eliminable so that it falls off its end instead: `return e` becomes `retvar = e` (dropped for a
+    helper used as a statement), and what follows a guard clause moves into its else branch."""
+    out: List[ast.stmt] = []
+    for i, st in enumerate(stmts):
+        if isinstance(st, ast.Return):
+            if retvar is not None:
+                out.append(ast.copy_location(ast.Assign(targets=[ast.Name(id=retvar, ctx=ast.Store())], value=st.value if st.value is not None else ast.Constant(None)), st))
+            return out
+        if isinstance(st, ast.If) and _contains_return([st]):
+            rest = stmts[i + 1:]
+            body = _eliminate_returns(st.body, retvar)
+            orelse = _eliminate_returns(st.orelse, retvar)
+            b_ret, o_ret = _always_returns(st.body) and _contains_return(st.body), _always_returns(st.orelse) and _contains_return(st.orelse)
+            tail = _eliminate_returns(rest, retvar) if rest else []
+            if b_ret and o_ret:
+                new = ast.If(test=st.test, body=body or [ast.Pass()], orelse=orelse)
+            elif b_ret:
+                new = ast.If(test=st.test, body=body or [ast.Pass()], orelse=orelse + tail)
+            else:
+                new = ast.If(test=st.test, body=(body + tail) or [ast.Pass()], orelse=orelse)
+            ast.copy_location(new, st)
+            for x in ast.walk(new):
+                if not hasattr(x, "lineno"):
+                    ast.copy_location(x, st)
+            out.append(new)
+            return out
+        out.append(st)
+    return out
+
+
 def _instantiate(target: Func, c: ast.Call, tag: str) -> Tuple[List[ast.stmt], Optional[ast.expr]]:
     """Body of target with parameters replaced by the call's arguments and locals renamed; -> (statements, returned expr)."""
     params = target.params()
     env: Dict[str, ast.expr] = {}
     args = list(c.args)
-    if isinstance(c.func, ast.Attribute):
+    if isinstance(c.func, ast.Attribute) and not _is_static(target):
         env[params[0]] = c.func.value   # self
         params = params[1:]
     defaults = target.node.args.defaults
@@ -680,6 +752,15 @@ def _instantiate(target: Func, c: ast.Call, tag: str) -> Tuple[List[ast.stmt], O
         if a_.arg not in env:
             env[a_.arg] = d_
     body = [norm.clone(s) for s in target.node.body if not (isinstance(s, ast.Expr) and isinstance(s.value, ast.Constant) and isinstance(s.value.value, str))]
+    multi_ret = None
+    nrets = [x for s_ in body for x in ast.walk(s_) if isinstance(x, ast.Return)]
+    if nrets and not (len(nrets) == 1 and nrets[0] is body[-1]):
+        # guard clauses / case splits: make the body fall off its end, the result (if any) in a fresh local
+        has_value = any(r.value is not None for r in nrets)
+        multi_ret = "ret" if has_value else None
+        body = _eliminate_returns(body, multi_ret)
+        if multi_ret:
+            body.append(ast.Return(value=ast.Name(id=multi_ret, ctx=ast.Load())))
     # rename locals (Store-bound names that are not parameters)
     bound = set()
     for s in body:
@@ -795,6 +876,16 @@ def _inline_helpers(P: Program, f: Func, depth: int = 2) -> Func:
                         for x in ast.walk(b):
                             if isinstance(x, ast.Name) and x.id == ret.id:
                                 x.id = st.targets[0].id
+                elif kind == "assign" and isinstance(st.targets[0], ast.Tuple) and isinstance(ret, ast.Tuple) and len(ret.elts) == len(st.targets[0].elts) \
+                        and all(isinstance(t_, ast.Name) for t_ in st.targets[0].elts) and all(isinstance(r_, ast.Name) and r_.id.endswith(f"__i{counter[0]}") for r_ in ret.elts) \
+                        and len({r_.id for r_ in ret.elts}) == len(ret.elts) and len({t_.id for t_ in st.targets[0].elts}) == len(ret.elts) \
+                        and not any(isinstance(x, ast.Name) and x.id in {t_.id for t_ in st.targets[0].elts} for a_ in list(call.args) + [k.value for k in call.keywords] for x in ast.walk(a_)):
+                    # `a, b = helper()` where the helper returns a tuple of its own locals: those locals *are* a and b from now on
+                    ren = {r_.id: t_.id for r_, t_ in zip(ret.elts, st.targets[0].elts)}
+                    for b in body:
+                        for x in ast.walk(b):
+                            if isinstance(x, ast.Name) and x.id in ren:
+                                x.id = ren[x.id]
                 elif kind == "assign":
                     out.append(ast.copy_location(ast.Assign(targets=st.targets, value=ret if ret is not None else ast.Constant(None)), st))
                 elif kind == "return":
